@@ -1,0 +1,172 @@
+//go:build verif
+
+// Contracts for the deductive verification in /verif (govc): TLS negotiation rules
+// (property C24). This file contains comments only; it is compiled only with -tags verif
+// and declares nothing.
+
+package tls
+
+// ---------------------------------------------------------------- common.go: protocol versions
+
+// The versions implemented by the package, highest first (TLS 1.3, 1.2, 1.1, 1.0).
+//@ global len(supportedVersions) == 4 && supportedVersions[0] == VersionTLS13 && supportedVersions[1] == VersionTLS12 && supportedVersions[2] == VersionTLS11 && supportedVersions[3] == VersionTLS10
+
+// Effective bounds of a configuration (Config.MinVersion / MaxVersion doc comments: zero
+// means "no bound"; a nil *Config is the default configuration).
+//@ pred ngLo(c) = ite(c == nil, uint16(0), c.MinVersion)
+//@ pred ngHi(c) = ite(c == nil || c.MaxVersion == 0, uint16(0xffff), c.MaxVersion)
+//@ pred ngIn(v, lo, hi) = lo <= v && v <= hi
+// number of elements among the first k of the global list that lie within [lo, hi]
+//@ pred ngCnt(k, lo, hi) = ite(k > 0 && ngIn(supportedVersions[0], lo, hi), 1, 0) + ite(k > 1 && ngIn(supportedVersions[1], lo, hi), 1, 0) + ite(k > 2 && ngIn(supportedVersions[2], lo, hi), 1, 0) + ite(k > 3 && ngIn(supportedVersions[3], lo, hi), 1, 0)
+// r is the sub-list of the global list consisting of the elements within [lo, hi], in order
+//@ pred ngFilt(r, n, lo, hi) = len(r) == ngCnt(n, lo, hi) && (n > 0 && ngIn(supportedVersions[0], lo, hi) ==> r[0] == supportedVersions[0]) && (n > 1 && ngIn(supportedVersions[1], lo, hi) ==> r[ngCnt(1, lo, hi)] == supportedVersions[1]) && (n > 2 && ngIn(supportedVersions[2], lo, hi) ==> r[ngCnt(2, lo, hi)] == supportedVersions[2]) && (n > 3 && ngIn(supportedVersions[3], lo, hi) ==> r[ngCnt(3, lo, hi)] == supportedVersions[3])
+
+// v is a version implemented by the package / implemented and enabled by configuration c
+//@ pred ngKnown(v) = v == VersionTLS13 || v == VersionTLS12 || v == VersionTLS11 || v == VersionTLS10
+//@ pred ngSupC(c, v) = ngKnown(v) && ngIn(v, ngLo(c), ngHi(c))
+// l is a strictly descending list of at most four versions - the shape of every list produced
+// by supportedVersions / supportedVersionsFromMax, i.e. of what a zcrypto peer advertises.
+//@ pred ngDesc(l) = len(l) <= 4 && (len(l) >= 2 ==> l[0] > l[1]) && (len(l) >= 3 ==> l[1] > l[2]) && (len(l) >= 4 ==> l[2] > l[3])
+
+// Exactly the elements of the package-level list lying within [MinVersion, MaxVersion], in
+// the order of that list (a fresh slice); hence descending and all enabled by c.
+//@ func (*Config).supportedVersions
+//@   loop 1 invariant 0 <= it && it <= 4 && fresh(versions) && cap(versions) == 4 && ngFilt(versions, it, ngLo(c), ngHi(c))
+//@   loop 1 decreases 4 - it
+//@   ensures  ngFilt(result, 4, ngLo(c), ngHi(c))
+//@   ensures  fresh(result)
+//@   ensures  len(result) <= 4 && forall(j, 0, len(result), ngSupC(c, result[j]))
+//@   ensures  ngDesc(result)
+//@   alloc <= 4
+//@   terminates
+
+// Highest / lowest enabled version; 0 when the configuration enables no implemented version.
+//@ func (*Config).maxSupportedVersion
+//@   ensures  ngSupC(c, result) || result == 0
+//@   ensures  forallv(v, uint16, ngSupC(c, v) ==> v <= result)
+//@   alloc <= 4
+//@   terminates
+
+//@ func (*Config).minSupportedVersion
+//@   ensures  ngSupC(c, result) || result == 0
+//@   ensures  forallv(v, uint16, ngSupC(c, v) ==> result != 0 && result <= v)
+//@   alloc <= 4
+//@   terminates
+
+// Versions offered by a legacy peer whose ClientHello carries only a maximum version:
+// every implemented version not above it, highest first.
+//@ func supportedVersionsFromMax
+//@   loop 1 invariant 0 <= it && it <= 4 && fresh(versions) && cap(versions) == 4 && ngFilt(versions, it, uint16(0), maxVersion)
+//@   loop 1 decreases 4 - it
+//@   ensures  ngFilt(result, 4, uint16(0), maxVersion)
+//@   ensures  fresh(result)
+//@   ensures  len(result) <= 4 && forall(j, 0, len(result), ngKnown(result[j]) && result[j] <= maxVersion)
+//@   ensures  ngDesc(result)
+//@   alloc <= 4
+//@   terminates
+
+// "Priority is given to the peer preference order": the first version of the peer's list
+// that this configuration supports; (0, false) iff there is none. [highest]: for a peer list
+// in descending order this is the highest version supported by both sides (C24).
+// (in loop 2 `supportedVersions` is the function's local variable, not the package-level list)
+//@ func (*Config).mutualVersion
+//@   loop 1 invariant 0 <= it && forall(j, 0, it, !ngSupC(c, peerVersions[j]))
+//@   loop 2 invariant 0 <= it && forall(k, 0, it, supportedVersions[k] != peerVersion)
+//@   ensures  result1 <==> exists(i, 0, len(peerVersions), ngSupC(c, peerVersions[i]))
+//@   ensures  result1 ==> exists(i, 0, len(peerVersions), peerVersions[i] == result0 && ngSupC(c, result0) && forall(j, 0, i, !ngSupC(c, peerVersions[j])))
+//@   ensures  !result1 ==> result0 == 0
+//@   ensures  [highest] ngDesc(peerVersions) && result1 ==> forall(j, 0, len(peerVersions), ngSupC(c, peerVersions[j]) ==> peerVersions[j] <= result0)
+//@   alloc <= 4
+//@   terminates
+
+// ---------------------------------------------------------------- common.go: curves, signature algorithms
+
+//@ global len(defaultCurvePreferences) == 4 && defaultCurvePreferences[0] == X25519 && defaultCurvePreferences[1] == CurveP256 && defaultCurvePreferences[2] == CurveP384 && defaultCurvePreferences[3] == CurveP521
+
+// Config.CurvePreferences doc: "If empty, the default will be used"; ExplicitCurvePreferences
+// doc: "If enabled, empty CurvePreferences indicates that there are no curves supported".
+//@ pred ngCurves(c) = ite(c.ExplicitCurvePreferences || len(c.CurvePreferences) != 0, c.CurvePreferences, defaultCurvePreferences)
+
+// requires c != nil: the function tests c == nil only AFTER reading c.ExplicitCurvePreferences,
+// so a nil *Config panics here although every other accessor accepts it (suspected defect
+// "curveprefs_nil" in /verif/notes/negotiate.md; without the precondition #nil.1 fails).
+//@ func (*Config).curvePreferences
+//@   requires c != nil
+//@   ensures  same(result, ngCurves(c))
+//@   terminates
+
+//@ func (*Config).supportsCurve
+//@   requires c != nil
+//@   loop 1 invariant 0 <= it && forall(k, 0, it, ngCurves(c)[k] != curve)
+//@   ensures  result <==> exists(k, 0, len(ngCurves(c)), ngCurves(c)[k] == curve)
+//@   terminates
+
+//@ func isSupportedSignatureAlgorithm
+//@   loop 1 invariant 0 <= it && forall(k, 0, it, supportedSignatureAlgorithms[k] != sigAlg)
+//@   ensures  result <==> exists(k, 0, len(supportedSignatureAlgorithms), supportedSignatureAlgorithms[k] == sigAlg)
+//@   terminates
+
+//@ func unexpectedMessageError
+//@   ensures  result != nil
+//@   terminates
+
+// ---------------------------------------------------------------- cipher_suites.go
+
+// The tables of implemented suites contain no nil entry.
+//@ global forall(i, 0, len(implementedCipherSuites), implementedCipherSuites[i] != nil)
+//@ global forall(i, 0, len(cipherSuitesTLS13), cipherSuitesTLS13[i] != nil)
+
+// r is the implemented (TLS 1.0-1.2 / TLS 1.3) suite with identifier id: the first table
+// entry carrying that id, nil iff the table has no such entry.
+//@ pred ngSuite(r, id) = (r == nil ==> forall(i, 0, len(implementedCipherSuites), implementedCipherSuites[i].id != id)) && (r != nil ==> exists(i, 0, len(implementedCipherSuites), implementedCipherSuites[i] == r && r.id == id && forall(j, 0, i, implementedCipherSuites[j].id != id)))
+//@ pred ngSuite13(r, id) = (r == nil ==> forall(i, 0, len(cipherSuitesTLS13), cipherSuitesTLS13[i].id != id)) && (r != nil ==> exists(i, 0, len(cipherSuitesTLS13), cipherSuitesTLS13[i] == r && r.id == id && forall(j, 0, i, cipherSuitesTLS13[j].id != id)))
+
+//@ func cipherSuiteByID
+//@   loop 1 invariant 0 <= it && forall(j, 0, it, implementedCipherSuites[j].id != id)
+//@   ensures  ngSuite(result, id)
+//@   terminates
+
+//@ func cipherSuiteTLS13ByID
+//@   loop 1 invariant 0 <= it && forall(j, 0, it, cipherSuitesTLS13[j].id != id)
+//@   ensures  ngSuite13(result, id)
+//@   terminates
+
+// "returns a cipherSuite given a list of supported ciphersuites and the id requested by
+// the peer": the implemented suite `want` if the list enables it, nil otherwise.
+//@ func mutualCipherSuite
+//@   loop 1 invariant 0 <= it && forall(k, 0, it, have[k] != want)
+//@   ensures  exists(k, 0, len(have), have[k] == want) ==> ngSuite(result, want)
+//@   ensures  !exists(k, 0, len(have), have[k] == want) ==> result == nil
+//@   terminates
+
+//@ func mutualCipherSuiteTLS13
+//@   loop 1 invariant 0 <= it && forall(k, 0, it, have[k] != want)
+//@   ensures  exists(k, 0, len(have), have[k] == want) ==> ngSuite13(result, want)
+//@   ensures  !exists(k, 0, len(have), have[k] == want) ==> result == nil
+//@   terminates
+
+// selectCipherSuite calls its function-valued parameter `ok`; govc has no model for such
+// calls (the heap and the result are unknown afterwards), so only memory safety of the
+// function's own code is checked (see /verif/notes/negotiate.md).
+//@ func selectCipherSuite
+//@   requires ok != nil
+//@   loop 1 invariant 0 <= it
+//@   loop 2 invariant 0 <= it
+//@   maypanic
+//@   modifies all
+
+// ---------------------------------------------------------------- handshake_client.go: ALPN
+
+// "finds the mutual ALPN protocol given list of possible protocols and a list of the
+// preference order": the first entry of preferenceProtos that occurs in protos; "" if none.
+//@ pred ngHas(list, s) = exists(k, 0, len(list), list[k] == s)
+// Verified part: [mutual] a non-empty result occurs in both lists (so "" is returned when the
+// lists are disjoint); [top] the most preferred protocol wins whenever the other side offers
+// it. The general rule "the FIRST mutual entry" needs an invariant with two quantified slice
+// indices, which the solvers cannot discharge with govc's heap encoding (see notes).
+//@ func mutualProtocol
+//@   loop 1 invariant 0 <= it && (it >= 1 ==> !ngHas(protos, preferenceProtos[0]))
+//@   loop 2 invariant 0 <= it && forall(k, 0, it, protos[k] != s)
+//@   ensures  [mutual] result == "" || (ngHas(preferenceProtos, result) && ngHas(protos, result))
+//@   ensures  [top] len(preferenceProtos) >= 1 && ngHas(protos, preferenceProtos[0]) ==> result == preferenceProtos[0]
+//@   terminates
